@@ -3,6 +3,7 @@ from props import rapid, plain
 _readers_race = plain("ctlog", "internal/ctlog", "^TestVerifC13Readers$", 2, 6, qs=1, ts=4)
 _readers_race["quick"] = None            # the -race build is thorough-only
 _readers_race["thorough"]["race"] = True
+_readers_race["thorough"]["env"] = {"C13_SALT": "race"}
 
 PROPS = {"C13": dict(
     level="fault_enumeration",
@@ -17,7 +18,7 @@ PROPS = {"C13": dict(
     assumptions=[
         "POSIX/ext4-style crash semantics as modelled: fsync of a file persists its data, fsync of a directory persists its entries, nothing else is durable; the real kernel and disks are not tested",
         "strace reports completed system calls of the sequential helper in program order",
-        "a call is reported as hanging only with positive evidence of spinning (two stack samples inside compareFile, unchanged file offset, growing read-syscall count), never on elapsed time alone",
+        "a call is reported as hanging only with positive evidence of spinning (five consecutive samples: goroutine runnable inside compareFile, unchanged offset of the descriptor on the object, CPU time being burned), never on elapsed time alone; a call that is merely slow ends inconclusive",
         "mutable upload onto an immutable object may fail (inode flag set: root on ext4) or replace it (flag unsupported); both accepted",
     ],
     technique="model-based state machine + exhaustive crash-prefix enumeration over a traced system-call sequence + bounded reader/writer stress",
